@@ -8,6 +8,7 @@ O: judged by the interpreter, never by doctrans' parsers: ast.parse succeeds; un
 """
 import argparse
 import ast
+import re
 import inspect
 import json
 import os
@@ -133,6 +134,33 @@ def _norm_docstrings(tree):
     return tree
 
 
+def _shape(n):
+    """Nested tuples describing an AST: class name + the fields that carry something."""
+    if isinstance(n, ast.UnaryOp) and isinstance(n.op, ast.USub) and isinstance(n.operand, ast.Constant) \
+            and isinstance(n.operand.value, (int, float)) and not isinstance(n.operand.value, bool):
+        # CPython has no negative literals: Constant(-9) unparses to "-9", which parses to -(9)
+        return ("Constant", ("value", ("=", type(n.operand.value).__name__, -n.operand.value)))
+    if isinstance(n, ast.AST):
+        out = [type(n).__name__]
+        for f in n._fields:
+            v = getattr(n, f, None)
+            if v is None or v == [] or f in ("kind", "type_comment", "ctx"):
+                continue
+            out.append((f, _shape(v)))
+        return tuple(out)
+    if isinstance(n, (list, tuple)):
+        return tuple(_shape(x) for x in n)
+    return ("=", type(n).__name__, n)
+
+
+def _first_diff(a, b):
+    if isinstance(a, tuple) and isinstance(b, tuple) and len(a) == len(b) and a[:1] == b[:1]:
+        for x, y in zip(a, b):
+            if x != y:
+                return _first_diff(x, y)
+    return a, b
+
+
 def check_common(ctx, base, replay, src, node, tmpdir, with_black):
     """Syntax, unparse/re-parse fixed point, emit.file trees."""
     from doctrans import emit
@@ -148,6 +176,13 @@ def check_common(ctx, base, replay, src, node, tmpdir, with_black):
     if ast.dump(again) != ast.dump(tree):
         ctx.report(dict(base, field="unparse", tag="not_fixed_point", expected="", observed=""), replay)
     ctx.event("unparse_fixed_point_checked")
+    # the emitted NODE itself against its own unparse/re-parse (fields the emitter left
+    # unset, None or empty are neutral; node classes and every set field must agree)
+    emitted, reparsed = _shape(node), _shape(tree.body[0] if not isinstance(node, ast.Module) else tree)
+    if emitted != reparsed:
+        where = _first_diff(emitted, reparsed)
+        ctx.report(dict(base, field="emitted_node", tag="differs_from_its_reparse", expected=str(where[0])[:200], observed=str(where[1])[:200]), replay)
+    ctx.event("emitted_node_compared_with_reparse")
     for skip_black in ((True, False) if with_black else (True,)):
         fn = os.path.join(tmpdir, "out_{}.py".format(int(skip_black)))
         if os.path.exists(fn):
@@ -336,7 +371,12 @@ def check_argparse(ctx, base, replay, ir, feat, tree, src, opts):
         # help
         want_help = ep.get("doc")
         got_help = a.help
-        if want_help and not opts.get("emit_default_doc"):
+        if want_help and not opts.get("emit_default_doc") and pf.get("doc_states_default"):
+            # prose that states its own default: without default text the sentence is removed
+            stem = re.split(r"\s*Defaults to ", want_help)[0]
+            if ws(got_help or "").rstrip(".") != ws(stem).rstrip("."):
+                _report(ctx, base, replay, pf, "doc", "help_differs", a.dest, stem, got_help)
+        elif want_help and not opts.get("emit_default_doc"):
             if (ws(got_help) if opts.get("word_wrap") else got_help) != (ws(want_help) if opts.get("word_wrap") else want_help):
                 _report(ctx, base, replay, pf, "doc", "help_differs", a.dest, want_help, got_help)
         elif want_help and (got_help is None or ws(want_help.rstrip(".,")) not in ws(got_help)):
@@ -387,8 +427,8 @@ def run(ctx):
     for k in KINDS:
         ctx.require("executed." + k, 10)
     ctx.require("emit.file", 10)
-    g = IRGen(ctx.rng, knobs(hostile_strings=not ctx.quick()))
-    ga = IRGen(ctx.rng, knobs(hostile_strings=not ctx.quick(), argparse_domain=True))
+    g = IRGen(ctx.rng, knobs(hostile_strings=not ctx.quick(), p_doc_states_default=0.15))
+    ga = IRGen(ctx.rng, knobs(hostile_strings=not ctx.quick(), argparse_domain=True, p_doc_states_default=0.15))
     n = ctx.n(1500, 30000)
     spaces = {k: option_space(k) for k in KINDS}
     tmpdir = tempfile.mkdtemp(prefix="dtverif-c06-")
